@@ -138,6 +138,42 @@ def managed_program(rng, thorough):
     return lines, meta
 
 
+def mixed_adjust_program(rng):
+    """a byte-sized reference to a fixed external address cannot follow the buffer to another mapping (the growing commit reports
+    Impossible(managed)) — the OTHER tracked fields, in front of it and behind it, must follow all the same"""
+    lines = ["new asm x86", "nd", "nd", "ll 1", "gl 9", "dl 0"]
+
+    def wide():
+        c = rng.below(3)
+        if c == 0:
+            lines.append(f"ex {hexb(rng.bytes(8))}")
+            lines.append(f"rx @{rng.range(-2**40, 2**40)} 8 0 x86.8.2")
+        elif c == 1:
+            lines.append(f"ex {hexb(rng.bytes(8))}")
+            lines.append(f"{rng.choice(['rb 1', 'rg 9', 'rd 0'])} {rng.choice([0, 5, -3])} 8 8 x86.8.1")
+        else:
+            lines.append("ex " + hexb(bytes([0xE8]) + rng.bytes(4)))
+            lines.append(f"rx @{rng.range(-2**30, 2**30)} 4 0 x86.4.2")
+        lines.append(f"ex {hexb(rng.bytes(rng.range(0, 9)))}")
+
+    lines.append(f"ex {hexb(rng.bytes(rng.range(1, 20)))}")
+    for _ in range(rng.range(0, 2)):
+        wide()
+    lines.append("ex xeb00")
+    here = sum(len(bytes.fromhex(l.split()[1][1:])) for l in lines if l.startswith("ex "))
+    lines.append(f"rx @{here + rng.range(-100, 100)} 1 0 x86.1.2")
+    lines.append(f"ex {hexb(rng.bytes(rng.range(0, 9)))}")
+    for _ in range(rng.range(1, 3)):
+        wide()
+    lines += ["c", "buf"]
+    for _ in range(rng.range(1, 2)):
+        lines.append(f"ex {hexb(rng.bytes(rng.choice([PAGE, PAGE + 1, 2 * PAGE + 5, 5000])))}")
+        if rng.chance(1, 2):
+            wide()
+        lines += ["c", "buf"]
+    return lines, {"kind": "mixed-adjust"}
+
+
 def error_program(rng):
     """small absolute fields cannot hold a 47-bit address: the error path"""
     lines = ["new asm x86", "ll 1", f"ex {hexb(rng.bytes(4))}"]
@@ -164,6 +200,9 @@ def evaluator(p, res, meta):
             return ({"kind": "panic", "op": ws[0]}, f"`{req[:50]}` panicked")
         if ws[0] in ("c", "}alter") and a.startswith("ok"):
             last_commit = idx
+        if meta and meta["kind"] == "mixed-adjust" and ws[0] == "c" and a.startswith("err Impossible(managed)"):
+            last_commit = idx           # the growing commit moved and published the buffer, then reported the field that cannot follow
+            continue
         if meta and meta["kind"] == "error":
             if ws[0] == "c" and not a.startswith("err Impossible"):
                 return ({"kind": "small-absolute-field-accepted"}, f"a {p[3].split()[-1]} absolute field cannot hold a mapping address but commit returned `{a}`")
@@ -208,7 +247,8 @@ def evaluator(p, res, meta):
             got = bytes.fromhex(a[1:])
             if len(got) != len(o.image):
                 return None
-            msg = asmcheck.check_image(got, o, bufaddr=addr)
+            # (the byte-sized field of a mixed-adjust program is the one that cannot follow: not judged)
+            msg = asmcheck.check_image(got, o, bufaddr=addr, skip=(lambda start, size: size == 1) if meta and meta["kind"] == "mixed-adjust" else (lambda start, size: False))
             if msg:
                 return ({"kind": "managed-field" if "decodes" in msg else "non-field-byte"}, msg + f" (buffer at {addr:#x})")
     return None
@@ -231,6 +271,10 @@ def check(run):
     progs, metas = [], []
     for _ in range(12000 if thorough else 1200):
         lines, meta = managed_program(rng, thorough)
+        progs.append(lines)
+        metas.append(meta)
+    for _ in range(3000 if thorough else 300):
+        lines, meta = mixed_adjust_program(rng)
         progs.append(lines)
         metas.append(meta)
     for _ in range(80 if thorough else 30):
